@@ -126,6 +126,7 @@ def Skeleton.pinned : Skeleton where
   seOrder := .closeThenStore
   seFirstOnly := false
   seBroadcasts := true
+  seOnlyOwnLock := true
   seStoreUnderLock := true
   linkWaitsOnCond := true
   watcherCallsSetErr := true
